@@ -24,7 +24,13 @@ RULE = ("genomes of 1..4 chromosomes (sizes 0..6; names where one is a prefix of
         "ignored ('_') chromosomes of several sizes in the genome; pile-up, mask, mask complement, merge, clip and extend are "
         "also run through the streamed per-chromosome path (as_stream(), Genome.get_intervals(stream) with every kind of "
         "chunking, read_intervals(file, stream=True)) with chromosomes without entries at the start, in the middle and at the "
-        "END of the genome order. Non-trivial = "
+        "END of the genome order. Round 4 (c10_extra.py): per-chromosome views of a genome-wide array (track[name], "
+        "track[locations], track[mask], get_data, from_dict), BinnedGenome counts, map_locations (locations at interval "
+        "starts/stops and at position 0 of the next chromosome), Geometry.jaccard / jaccard_all_vs_all / get_track, "
+        "constructors (from_fields, np.concatenate, from_track, get_sorted_stream, sorted locations), file readers "
+        "(Genome.from_file on .chrom.sizes / .fa, read_intervals, read_track, read_locations incl. numeric names, "
+        "read_sequence, BinnedGenome.from_file/count_file), GenomicSequence dict and FASTA backends, StreamedGeometry; "
+        "merge inputs that are outside a chromosome or not in genome order must raise. Non-trivial = "
         ">= 2 included chromosomes and some entry touches a chromosome end or position 0")
 EXHAUSTIVE = {"quick": False, "thorough": False}
 MODEL_OPS = {"lookup", "l2g", "g2l", "pileup", "mask", "merge", "clip", "extend", "windows", "sort", "extract", "location"} | c10_extra.MODEL_OPS
@@ -50,7 +56,14 @@ MANIFEST = {
             "keeps order and ranks; the genome-wide array is exactly the concatenation of the included chromosomes' own arrays "
             "(global_is_concat: length, sum, zero count, histograms follow) and the streamed per-chromosome path yields one "
             "array per chromosome of the genome order, all-zero of full length for a chromosome without entries wherever it "
-            "is (stream_per_chromosome); get_location lies inside its own interval; Geometry.sort is in genome order. Merge: the shipped rule (merge in concatenated coordinates) is refuted in Lean with the boundary-"
+            "is (stream_per_chromosome); get_location lies inside its own interval; Geometry.sort is in genome order; "
+            "track[name]/track[location]/track[mask] are the chromosome's own values (track_views_local, toDict_flatten_inverse); "
+            "BinnedGenome bins count only their own chromosome's locations (binned_local); map_locations pairs an interval with "
+            "exactly its own chromosome's locations in [start, stop) (map_locations_local, shipped side='right' rule refuted); "
+            "completeness: pile-up/mask/extraction fail exactly on entries outside their chromosome (pileup_none_iff); the "
+            "searchsorted model is pinned as a count over sorted prefix sums (searchsorted_is_count). Merge (no hypothesis, "
+            "merge_checked_iff): a result exactly when all entries are inside their chromosomes and in genome order, and then "
+            "the per-chromosome merge, otherwise an error. Older statements: Merge: the shipped rule (merge in concatenated coordinates) is refuted in Lean with the boundary-"
             "touching witness, the repaired per-chromosome rule is proved equal to the per-chromosome single-contig merge. "
             "Generated obligations: the real GenomicIntervalsFull.clip / extended_to_size / get_location and Geometry.clip / "
             "extend_to_size are executed on symbolic columns every run and the recorded expressions (Gen/C10.lean) are proved equal "
